@@ -622,8 +622,16 @@ func c19ConcurrentProposals(r *Rec) {
 				c := cands[r.Rng.Intn(len(cands))]
 				cur, _ := k.GetNetworkProperty(ctx, c.id)
 				v := c.val(cur.Value) + uint64(i)
-				m, err := govtypes.NewMsgSubmitProposal(w.addrs[5], "t", "d", govtypes.NewSetNetworkPropertyProposal(c.id, govtypes.NetworkPropertyValue{Value: v}))
+				req := govtypes.NetworkPropertyValue{Value: v}
+				if r.Rng.Intn(2) == 0 {
+					req.StrValue = fmt.Sprint(v) // both fields filled, as a client that does not know the property's kind sends it
+				}
+				m, err := govtypes.NewMsgSubmitProposal(w.addrs[5], "t", "d", govtypes.NewSetNetworkPropertyProposal(c.id, req))
 				if err != nil {
+					continue
+				}
+				if err := m.ValidateBasic(); err != nil { // what the ante chain does with every message before it is routed
+					r.Count("concurrent-props:invalid-basic")
 					continue
 				}
 				err = withCache(ctx, func(cc sdk.Context) error {
